@@ -33,7 +33,7 @@ def main():
                 k = (r['status'], r['detail'][:300])
                 if k not in seen:
                     seen.add(k)
-                    print('   ', r['status'], r['detail'][:1200])
+                    print('   ', r['status'], r['detail'][:300], '...', r['detail'][-700:])
             if r['type'] == 'violation':
                 k = (r['check'], r['kind'])
                 if k not in seen:
